@@ -224,6 +224,18 @@ func (c *fileCtx) resolveType(e ast.Expr) (t Type, ptr bool, err error) {
 			return t, false, c.errf(e, "unsupported generic instantiation (only [float64])")
 		}
 		return c.resolveType(e.X)
+	case *ast.ArrayType: // slice: a read-only list (arrays with a length are outside the subset)
+		if e.Len != nil {
+			return t, false, c.errf(e, "unsupported array type (only slices)")
+		}
+		et, p, err := c.resolveType(e.Elt)
+		if err != nil {
+			return t, false, err
+		}
+		if p {
+			return t, false, c.errf(e, "unsupported slice of pointers")
+		}
+		return tList(et), false, nil
 	case *ast.Ellipsis: // variadic parameter: a read-only list
 		et, p, err := c.resolveType(e.Elt)
 		if err != nil {
